@@ -214,7 +214,8 @@ def config(sc, work, plug=PLUG):
         out_iv.pop(v)
     conf = dict(
         version=2,
-        time=dict(module=plug % "time", start=iso(sc["start"]), stop=iso(sc["stop"]), dt=sc["dt"]),
+        # a warm start takes its start time from the restart file: the configured start may be left as it was ("unchanged settings")
+        time=dict(module=plug % "time", start=iso((sc.get("warm") or {}).get("config_start", sc["start"])), stop=iso(sc["stop"]), dt=sc["dt"]),
         state=dict(module=plug % "state", instance_variables=iv, particle_variables=dict(release_time="time", src="int"), default_values=dv),
         grid=dict(module=plug % "grid", filename=os.path.join(work, "f_00.nc")),
         forcing=dict(module=plug % "forcing", filename=os.path.join(work, "f_*.nc")),
